@@ -43,9 +43,15 @@ def main():
     try:
         os.makedirs(root, exist_ok=True)
         subprocess.run(["rsync", "-a", "--delete", "--exclude", "/target", "--exclude", "/.git", REPO + "/", work + "/"], check=True)
+        budget = float(os.environ.get("VERIF_MUTANT_BUDGET_S", "1500"))
+        t_start = time.time()
         for p in patches:
             name = p[:-6]
             if only and name != only:
+                continue
+            if not only and time.time() - t_start > budget:
+                rows.append((name, "skipped (time budget %ds used)" % budget, [], expect.get(name, [])))
+                print("%-40s skipped (time budget)" % name, flush=True)
                 continue
             t0 = time.time()
             ap = subprocess.run(["patch", "-p1", "--no-backup-if-mismatch", "-i", os.path.join(mdir, p)], cwd=work,
